@@ -281,6 +281,12 @@ class DocGen:
                     if r.random() < 0.15:
                         path.append(r.choice(["x", "y"]))
                     fam.append(Entry("attrpath", path, value=self.value()))
+                # deep family: four-segment paths that share their first three segments
+                if r.random() < 0.12:
+                    self.n += 1
+                    mid = f"svc{self.n}"
+                    for lf in self.names(2):
+                        fam.append(Entry("attrpath", [nm, mid, "hosts", lf], value=self.value()))
                 # twins: the same leaf name with the same value under another prefix
                 # (`services.a.enable = true; services.b.enable = true;`, `x.enable` / `y.enable`)
                 if r.random() < 0.25:
